@@ -57,10 +57,13 @@ Classes(tier) ==
       inn \in (IF tier = "quick" THEN {"none", "class2", "enum"} ELSE InnerKinds), sup \in (IF tier = "quick" THEN {"none", "two", "aliased"} ELSE Supers) }
 Funcs == { N("func", "fun", {}, << Param("a"), Param("b"), Res >>), N("func", "_pfun", {}, << Param("a") >>), N("func", "noargs", {}, <<>>),
            N("func", "movl", {"overload"}, << Param("a"), Res >>), N("func", "mdovl", {"overload", "deco"}, << Param("a"), Res >>) }
+(* the other enum classes of the standard library: the flag names the base class the enum derives from *)
+EnumB(name, n, base) == [ EnumN(name, n) EXCEPT !.flags = { "base-" \o base } ]
 Enums == { EnumN("Col", 2), EnumN("Empty", 0), EnumN("_PCol", 2) }
+EnumsB == { EnumB("SCol", 2, "StrEnum"), EnumB("FCol", 2, "Flag"), EnumB("GCol", 2, "IntFlag"), EnumB("ICol", 2, "IntEnum") }    \* alone in their module only
 
 Modules(tier) ==
-  { N("module", "m", {}, << x >>) : x \in Classes(tier) \cup Funcs \cup Enums }
+  { N("module", "m", {}, << x >>) : x \in Classes(tier) \cup Funcs \cup Enums \cup EnumsB }
   \cup { N("module", "m", {}, << x, y >>) : x \in Funcs \cup Enums, y \in { c \in Classes(tier) : c.name = "Cls" /\ Len(c.ch) <= 2 } }
   \cup { N("module", "m", {}, << y, x, z >>) : x \in Funcs, z \in Enums, y \in { c \in Classes(tier) : c.name = "Cls" /\ Len(c.ch) = 1 } }
   \* names that merely end in "__init__": a class Cls__init__ with attributes and a constructor, a module file m__init__.py
@@ -160,8 +163,12 @@ Judge(m, obs) ==
      (IF obs.valid /\ obs.schema = 1 THEN {} ELSE { [property |-> "C12", clause |-> "Valid", sig |-> "invalid-json-or-schema", expected |-> "valid, schemaVersion 1", observed |-> ToString(obs.schema)] })
   \cup (IF obs.sorted THEN {} ELSE { [property |-> "C12", clause |-> "Sorted", sig |-> "unsorted-list", expected |-> "sorted by id", observed |-> "unsorted"] })
   \cup { [property |-> "C12", clause |-> "NoDup", sig |-> "duplicate:" \o kindOf(d), expected |-> "unique ids", observed |-> d] : d \in ToSet(obs.dups) }
-  \cup { [property |-> "C12", clause |-> "Complete", sig |-> "missing:" \o x.kind \o (IF "ctor" \in x.flags THEN "-ctor" ELSE ""), expected |-> x.id, observed |-> "absent"]
+  \cup { [property |-> "C12", clause |-> "Complete", sig |-> "missing:" \o x.kind \o (IF "ctor" \in x.flags THEN "-ctor" ELSE "")
+                                                                    \o (IF \E f \in x.flags : f \in {"base-StrEnum", "base-Flag", "base-IntFlag", "base-IntEnum"} THEN ":other-enum-base-class" ELSE ""),
+            expected |-> x.id, observed |-> "absent"]
          : x \in { x \in exp : x.id \notin ids } }
+  \cup { [property |-> "C12", clause |-> "Complete", sig |-> "listed-as-another-kind:" \o x.kind \o "-as-" \o e.kind, expected |-> x.kind \o " " \o x.id, observed |-> e.kind]
+         : <<x, e>> \in { p \in exp \X E : p[1].id = p[2].id /\ p[1].kind # p[2].kind /\ ~\E e2 \in E : e2.id = p[1].id /\ e2.kind = p[1].kind } }
   \cup { [property |-> "C12", clause |-> "Complete", sig |-> "unexpected:" \o e.kind, expected |-> "absent", observed |-> e.id] : e \in { e \in E : e.id \notin expIds } }
   \cup { [property |-> "C12", clause |-> "Flags", sig |-> "flags:" \o x.kind, expected |-> ToString(x.flags), observed |-> ToString({ o.flags : o \in { o \in obsK : o.id = x.id } })]
          : x \in { x \in exp : x.kind \in {"func", "attr"} /\ x.id \in ids /\ [kind |-> x.kind, id |-> x.id, flags |-> { f \in x.flags : f \in {"static", "classmethod", "property"} }] \notin obsK } }
